@@ -1966,11 +1966,46 @@ func (r *Raft) installSnapshot(rpc RPC, req *InstallSnapshotRequest) {
 	r.setLastApplied(req.LastLogIndex)
 
 	// Update the last stable snapshot info
+	prevSnapIdx, prevSnapTerm := r.getLastSnapshot()
 	r.setLastSnapshot(req.LastLogIndex, req.LastLogTerm)
 
 	// Restore the peer set
 	r.setLatestConfiguration(reqConfiguration, reqConfigurationIndex)
 	r.setCommittedConfiguration(reqConfiguration, reqConfigurationIndex)
+
+	// Entries above our commit index were never confirmed by any leader. Those
+	// at or below the snapshot index are superseded by the snapshot. Those above
+	// it descend from the snapshot's last entry only if our log holds that entry
+	// (same index and term) or we already had a snapshot reaching as far;
+	// otherwise they descend from a mismatching entry. Unconfirmed entries that
+	// do not continue the snapshot must not survive next to it, where they
+	// would later be served as part of the history it stands for.
+	var snapLast Log
+	continues := prevSnapIdx > req.LastLogIndex ||
+		(prevSnapIdx == req.LastLogIndex && prevSnapTerm == req.LastLogTerm)
+	if err := r.logs.GetLog(req.LastLogIndex, &snapLast); err == nil && snapLast.Term == req.LastLogTerm {
+		continues = true
+	}
+	lastLogIdx, _ := r.getLastLog()
+	discardTo := lastLogIdx
+	if continues {
+		discardTo = min(lastLogIdx, req.LastLogIndex)
+	}
+	if commitIdx := r.getCommitIndex(); discardTo > commitIdx {
+		if err := r.logs.DeleteRange(commitIdx+1, discardTo); err != nil {
+			r.logger.Error("failed to discard unconfirmed log entries", "error", err)
+			rpcErr = err
+			return
+		}
+		if discardTo == lastLogIdx {
+			var last Log
+			if err := r.logs.GetLog(commitIdx, &last); err == nil {
+				r.setLastLog(last.Index, last.Term)
+			} else {
+				r.setLastLog(0, 0)
+			}
+		}
+	}
 
 	// Clear old logs if r.logs is a MonotonicLogStore. Otherwise compact the
 	// logs. In both cases, log any errors and continue.
